@@ -234,7 +234,23 @@ func cmdCheck(args []string) int {
 			fmt.Printf("VIOLATION property=%s replay=%s%s\n", id, path, suffix)
 			violations++
 		default: // undecided
-			if baseline != nil && baseline[g.Name] && !*update {
+			var relO *Oblig
+			var relRep *ReplayResult
+			if !*update && replays < maxReplays {
+				relO, relRep = tryRelaxedReplay(L, id, g)
+				if relRep != nil {
+					replays++
+				}
+			}
+			if relRep != nil && relRep.Reproduced {
+				// undecided by the solvers, but a candidate input fails on the real code
+				total++
+				path := writeReplayFile(id, relO, relRep, "obligation undecided by the solvers ("+solverOutcome(g.firstFailing())+"); a candidate input from the relaxed query reproduces the failure on the real code")
+				fmt.Printf("FAILED %s (%s) at %s: %s\n", g.Name, g.Class, relO.Pos, relO.Info)
+				fmt.Printf("  replay: %s\n", relRep.Summary)
+				fmt.Printf("VIOLATION property=%s replay=%s\n", id, path)
+				violations++
+			} else if baseline != nil && baseline[g.Name] && !*update {
 				total++
 				o := g.firstFailing()
 				path := writeReplayFile(id, o, nil, "obligation was discharged on the baseline tree and is no longer provable (solver: "+solverOutcome(o)+")")
